@@ -369,7 +369,11 @@ def compare(beh, info, res, tol=2e-5, log_on=True, echo_on=True):
                 nrm = sum(abs(z) ** 2 for z in impl)
                 if abs(nrm - 1) > 1e-6:
                     out.append(("C03", "final state norm^2 = %g" % nrm))
-                ok, why = same_up_to_phase(impl, [ring_to_c(z) for z in beh["vec"]], tol)
+                if beh.get("basis", -1) >= 0:       # behaviour of the basis-state model: the state is one basis vector
+                    want = [1.0 if i == beh["basis"] else 0.0 for i in range(2 ** beh["n"])]
+                else:
+                    want = [ring_to_c(z) for z in beh["vec"]]
+                ok, why = same_up_to_phase(impl, want, tol)
                 if not ok:
                     out.append(("C03,C01", "final amplitudes differ from the exact spec state (%s)" % why))
         if fin["simmeas"] != beh["simmeas"] or fin["evmeas"][:beh["n"]] != beh["evmeas"]:
